@@ -334,8 +334,20 @@ def main(argv):
     with open(os.path.join(common.OUT_DIR, "evidence", f"{prop}.json"), "w") as f:
         json.dump(evidence, f, indent=1, sort_keys=True, default=common._json_default)
 
-    for what, cnt in sorted(known.items()):
-        print(f"KNOWN-FINDING: property={prop} {what} (hit {cnt}x)")
+    # every OPEN finding listed for this property is announced on every run (with the number of generated cases it excluded), and its stored
+    # reproduction is executed: the finding is never added to at run time, and a violation its predicate does not cover is reported as usual
+    for e in common.load_known():
+        if e.get("status") != "open" or e.get("property") != prop:
+            continue
+        what = e.get("what", e.get("bucket", "?"))
+        repro = ""
+        if e.get("replay"):
+            try:
+                rec, v = replay_file(os.path.join(common.VERIF_DIR, e["replay"]))
+                repro = "; stored reproduction still fails" if v is not None else "; stored reproduction NO LONGER fails on this tree"
+            except Exception as ex:      # noqa: BLE001
+                repro = f"; stored reproduction could not be run ({type(ex).__name__})"
+        print(f"KNOWN-FINDING: property={prop} {what} (generated cases excluded by it in this run: {known.get(what, 0)}{repro})")
     print(f"{prop} {tier} seed={seed}: evaluations={evaluations} distinct_nontrivial={len(all_hashes)} "
           f"excluded={excluded} wall={wall:.1f}s" + (" [budget hit: inconclusive beyond this point]" if budget_hit else ""))
     for k, ps in per_sub.items():
